@@ -185,6 +185,8 @@ def fast_csv_reader(source: Union[str, StringIO],
     :param whitespace_value: whitespace_value value in ASCII
     """
 
+    carriage_return_value = 13
+
     colcount = column_inds.shape[0]
     maxrowcount = np.int64(column_inds.shape[1] - 1)  # -1: minus the first element (0) in the row that created for prefix
     
@@ -265,13 +267,18 @@ def fast_csv_reader(source: Union[str, StringIO],
                     escaped_literal_candidate = False
                 elif index + 1 < len(source) and source[index + 1] == escape_value:
                     escaped_literal_candidate = True
-                elif index + 1 < len(source) and (source[index + 1] == separator_value or source[index + 1] == newline_value):
+                elif index + 1 < len(source) and (source[index + 1] == separator_value or source[index + 1] == newline_value
+                                                  or source[index + 1] == carriage_return_value):
                     escaped = False
                 elif index + 1 == len(source):
                     # reach the end of source, will retry in next chunk
                     pass
                 else:
                     raise Exception('invalid double quote')
+        elif c == carriage_return_value and not escaped and index + 1 < len(source) and source[index + 1] == newline_value:
+            # the CR of a CRLF line break (RFC 4180) is not part of the cell
+            pass
+
         else:
             write_char = True
 
